@@ -11,6 +11,7 @@ Reader part: the sequential reader over a fault-injecting source (`Hts.Model.Rea
 -/
 import Hts.Lemmas.WriterLTSAcc
 import Hts.Lemmas.WriterLTSWitness
+import Hts.Lemmas.ReaderFaults
 namespace Hts.Props.C09
 open Hts.Model.WriterLTS
 
@@ -191,5 +192,36 @@ example : ∃ tr s, runTrace repairedCfg [] (init repairedCfg) repairedSchedule 
     tr = [.ret .close .err 3, .call .close, .ret (.write 2) .err 2, .uw (some 0) false, .call (.write 2)] ∧
     AllIdle s ∧ NoLibraryThread s ∧ s.out = [] ∧ s.eof = false := by
   refine ⟨_, _, rfl, ?_, ?_, ?_, ?_, ?_⟩ <;> decide
+
+/-! ### reader: sequential reader over a source that starts failing -/
+
+section Reader
+open Hts.Model.ReaderFaults
+
+/-- Whatever the fault (an error or a premature end of input, at any byte offset), the bytes returned are a
+    prefix of the file's data. -/
+theorem reader_prefix_under_faults (cut : Option Nat) (kind : FaultKind) (ms : List Member) :
+    ∃ rest, flat ms = (readAll cut kind 0 ms).1 ++ rest :=
+  readAll_prefix cut kind 0 ms
+
+/-- A clean end of data is reported only after all of the data, or — for a source that itself reports a
+    premature end — when that end falls exactly on a member boundary. -/
+theorem reader_clean_eof_only_at_end (cut : Option Nat) (kind : FaultKind) (ms : List Member)
+    (h : (readAll cut kind 0 ms).2 = .eof) :
+    (readAll cut kind 0 ms).1 = flat ms ∨ (kind = .eof ∧ ∃ p, cut = some p ∧ p ∈ boundaries 0 ms) :=
+  readAll_eof cut kind 0 ms h
+
+/-- An error of the underlying reader anywhere up to the end of the file is reported, never turned into a clean
+    end of data. -/
+theorem reader_error_not_swallowed (p : Nat) (ms : List Member) (h : p ≤ fileEnd 0 ms) :
+    (readAll (some p) .err 0 ms).2 = .err :=
+  readAll_err_reported p 0 ms h
+
+/-- non-vacuity: three members of 40, 28 (empty) and 50 bytes; error 10 bytes into the third -/
+example : readAll (some 78) .err 0 [⟨40, [1, 2]⟩, ⟨28, []⟩, ⟨50, [3]⟩] = ([1, 2], .err) := by decide
+example : readAll (some 68) .eof 0 [⟨40, [1, 2]⟩, ⟨28, []⟩, ⟨50, [3]⟩] = ([1, 2], .eof) := by decide
+example : readAll none .err 0 [⟨40, [1, 2]⟩, ⟨28, []⟩, ⟨50, [3]⟩] = ([1, 2, 3], .eof) := by decide
+
+end Reader
 
 end Hts.Props.C09
